@@ -716,6 +716,136 @@ theorem closed_store_schedules_nothing (s : St1) (ops : List Op1) (h : ∀ o ∈
   have := key ops (step1 s .close) h (by simp [step1]) (by simp [step1])
   simpa [step1] using this
 
+/-- the store as the one-tree model of C11 sees it: is the tree there, is a removal scheduled -/
+structure View where
+  present : Bool
+  armed : Bool
+  deriving DecidableEq, Repr
+
+inductive VOp where
+  | skip | refresh | set | remove | expire
+  deriving DecidableEq, Repr
+
+def vstep (v : View) : VOp → View
+  | .skip => v
+  | .refresh => { v with armed := false }
+  | .set => { present := true, armed := false }
+  | .remove => { v with armed := true }
+  | .expire => if v.armed then { present := false, armed := false } else v
+
+def view (s : St1) : View :=
+  { present := match s.slot with | .present _ => true | _ => false, armed := s.armed.isSome }
+
+/-- what a store operation is in the view, given the state it is applied to -/
+def vop (s : St1) : Op1 → VOp
+  | .register => .skip
+  | .unregister => .skip
+  | .refresh => .refresh
+  | .set _ => .set
+  | .remove => if s.closed then .skip else .remove
+  | .timer => .skip
+  | .reap g => if g ∈ s.firing ∧ s.armed = some g then .expire else .skip
+  | .close => .refresh
+
+/-- **the two-step expiry refines the one-step expiry**: every operation of the real store — including
+the timer firing and the routine getting the lock later, possibly after the removal was cancelled or
+scheduled again — acts on the one-tree view as one of: nothing, refresh, set, remove, expire; and
+`expire` only ever happens to a removal that is still the scheduled one. -/
+theorem refines_view (s : St1) (o : Op1) : view (step1 s o) = vstep (view s) (vop s o) := by
+  cases o with
+  | register => simp only [step1, vop, vstep]; split <;> simp_all [view]
+  | unregister => simp only [step1, vop, vstep]; split <;> simp_all [view]
+  | refresh => simp [step1, vop, vstep, view]
+  | set c => simp [step1, vop, vstep, view]
+  | remove =>
+    simp only [step1, vop]
+    by_cases hc : s.closed = true
+    · simp [hc, vstep]
+    · simp only [hc]
+      cases ha : s.armed <;> simp [vstep, view, ha]
+  | timer =>
+    simp only [step1, vop, vstep]
+    cases ha : s.armed with
+    | none => rfl
+    | some g => by_cases hf : g ∈ s.firing <;> simp [hf, view, ha]
+  | reap g =>
+    simp only [step1, vop]
+    by_cases hf : g ∈ s.firing
+    · by_cases ha : s.armed = some g
+      · simp [hf, ha, vstep, view]
+      · simp [hf, ha, vstep, view]
+    · simp [hf, vstep]
+  | close => simp [step1, vop, vstep, view]
+
+
+/-- the store operations each step of the one-tree model performs -/
+def treeOps (s : C11.St) : C11.Act → List VOp
+  | .arrive _ _ => []
+  | .thread i => match s.thr[i]? with
+      | some t => match t.pc with
+          | .lookup => [.refresh]                       -- `getAndRefresh`
+          | .found => if t.tok ∈ s.doneToks ∧ s.live = [] then [.remove] else []   -- late message: `cleanTreeStorage`
+          | .set => [.set]                              -- `treeStorage.Set`
+          | _ => []
+      | none => []
+  | .done tok => if s.live.filter (· != tok) = [] then [.remove] else []          -- `cleanTreeStorage`
+  | .expire => [.expire]
+  | .localStart _ => []
+
+def cview (s : C11.St) : View := { present := s.present, armed := s.armed }
+
+/-- **the one-tree model uses the store only through its operations**: on the tree's slot every step
+of `Model/C11.lean` is exactly the listed store operations in the one-tree view — so, with
+`refines_view` and `independent`, what is proved about that model's tree holds for the real store's
+slot of that tree id, whatever happens to other trees and however late removal routines run. -/
+theorem c11_model_uses_store_ops (s s' : C11.St) (a : C11.Act) (h : C11.step s a = some s') :
+    cview s' = (treeOps s a).foldl vstep (cview s) := by
+  cases a with
+  | arrive tok m => simp [C11.step] at h; subst h; rfl
+  | localStart tok =>
+    simp only [C11.step] at h
+    split at h
+    · simp at h
+    · simp at h; subst h; rfl
+  | expire =>
+    simp only [C11.step] at h
+    split at h
+    · rename_i ha; simp at h; subst h; simp [treeOps, vstep, cview, ha]
+    · simp at h
+  | done tok =>
+    simp only [C11.step] at h
+    split at h
+    · simp at h; subst h
+      simp only [treeOps, cview]
+      by_cases hl : s.live.filter (· != tok) = []
+      · have hl' : ∀ a ∈ s.live, a = tok := by simpa using hl
+        simp [hl, vstep]
+        exact .inl hl'
+      · have hl' : ¬ ∀ a ∈ s.live, a = tok := by simpa using hl
+        simp [hl, hl']
+    · simp at h
+  | thread i =>
+    simp only [C11.step] at h
+    split at h
+    · rename_i t ht
+      obtain ⟨t0, m0, pc0⟩ := t
+      simp only [treeOps, ht]
+      cases pc0 <;> simp only [C11.stepTh] at h
+      · simp at h; subst h; simp [vstep, cview]
+      · split at h
+        · simp at h
+        · split at h
+          · rename_i hd
+            simp at h; subst h
+            simp only [cview]
+            split <;> simp_all [vstep]
+          · rename_i hd
+            split at h <;> (simp at h; subst h; simp [cview, hd])
+      · simp at h; subst h; simp [vstep, cview]
+      · simp at h; subst h; simp [cview]
+      · simp at h
+    · simp at h
+
 /-- **the routine as it was before repair 2e39a89 deletes a tree that was just stored**: a removal is
 scheduled, its timer fires while `Set` holds the lock, `Set` cancels the removal and stores the tree,
 then the routine gets the lock and deletes without looking. -/
